@@ -333,6 +333,12 @@ impl Simple {
     }
 
     pub fn build_with(&self, sigs: SigProvider<'_>) -> Built {
+        self.build_full(&|_, _| {}, sigs)
+    }
+
+    /// `patch(role, signed)` may rewrite any signed portion before it is signed (and before the
+    /// documents above it pin its hash).
+    pub fn build_full(&self, patch: &dyn Fn(&str, &mut Value), sigs: SigProvider<'_>) -> Built {
         let cur = self.current_root();
         let consistent = cur.consistent;
         let epoch = &self.roots[self.online_epoch.unwrap_or(self.roots.len() - 1)];
@@ -340,10 +346,12 @@ impl Simple {
         b.consistent = consistent;
 
         let sign = |role: &str, signed: &Value, default_signers: &[usize]| -> Value {
-            let c = canon(signed).expect("no floats");
-            let list = sigs(role, signed, &c)
+            let mut signed = signed.clone();
+            patch(role, &mut signed);
+            let c = canon(&signed).expect("no floats");
+            let list = sigs(role, &signed, &c)
                 .unwrap_or_else(|| default_signers.iter().map(|i| sig_entry(key(*i), &c)).collect());
-            envelope(signed.clone(), list)
+            envelope(signed, list)
         };
 
         // roots
@@ -557,8 +565,8 @@ pub fn classify(e: &tough::error::Error) -> ErrClass {
         false
     }
     match e {
-        E::VerifyMetadata { .. } => ErrClass::SigThreshold,
-        E::VerifyTrustedMetadata { .. } => ErrClass::VerifyTrusted,
+        E::VerifyMetadata { source: tough::schema::Error::SignatureThreshold { .. }, .. } => ErrClass::SigThreshold,
+        E::VerifyTrustedMetadata { source: tough::schema::Error::SignatureThreshold { .. }, .. } => ErrClass::VerifyTrusted,
         E::ExpiredMetadata { .. } => ErrClass::Expired,
         E::OlderMetadata { .. } => ErrClass::OlderMetadata,
         E::VersionMismatch { .. } => ErrClass::VersionMismatch,
@@ -582,6 +590,16 @@ pub fn classify(e: &tough::error::Error) -> ErrClass {
             }
         }
         _ => ErrClass::Other,
+    }
+}
+
+/// For a signature-threshold failure: which role type tough says failed.
+pub fn failed_role(e: &tough::error::Error) -> Option<String> {
+    use tough::error::Error as E;
+    match e {
+        E::VerifyMetadata { role, .. } => Some(role.to_string()),
+        E::VerifyTrustedMetadata { .. } => Some("trusted-root".to_string()),
+        _ => None,
     }
 }
 
